@@ -141,6 +141,17 @@ def cases(tier, rng):
     yield Case("chords.from_shorthand_list", [[r + k for r in ROOTS10[:3] for k in REPS]], "list", kind=("list",))
     yield Case("chords.tables_sorted", [], "tables", model=False)
     alpha = "mM7#b+sdi69u-aj/|x5"
+    # polychords of three and four chords ('X|Y|Z' = Z's notes, then Y's, then X's); a slash bass only on the LAST chord (what
+    # a slash in the middle of several bars means the statement does not say)
+    for parts in (["Am", "C", "G"], ["C", "G", "D", "A"], ["Dm7", "G7", "CM7"], ["C", "C", "C"], ["F#", "Bb", "Eb"], ["Em", "C", "D/F#"]):
+        yield Case("chords.from_shorthand", ["|".join(parts)], "poly/several", kind=("polyn", tuple(parts)))
+    # shorthands that exist only in lower case, written with a capital first letter: unknown
+    for k in sorted(FORMULA):
+        if k and k[0].islower() and k[0] != "m":
+            cap = k[0].upper() + k[1:]
+            if cap not in FORMULA and normalize(cap) not in FORMULA:
+                for r in ("C", "F#", "Bbb"):
+                    yield Case("chords.from_shorthand", [r + cap], "unknown/capitalised", kind=("unknown",))
     junk = set()
     for ln in range(1, 4 if tier == "quick" else 5):
         for t in itertools.product("mM7#b+s9-ax", repeat=ln):
@@ -195,6 +206,17 @@ def oracle(c, obs):
         _, r1, k1, r2, k2 = kind
         want = poly_expect(spec_notes_of(r1, k1), spec_notes_of(r2, k2))
         return None if obs == want else "polychord is not Y's notes followed by X's notes without immediate repeats"
+    if kind[0] == "polyn":
+        parts = list(kind[1])
+        def notes_of(x):
+            if "/" in x:
+                ch, b = x.split("/")
+                return [b] + chords.from_shorthand(ch)
+            return chords.from_shorthand(x)
+        want = notes_of(parts[-1])
+        for x in reversed(parts[:-1]):
+            want = poly_expect(notes_of(x), want)
+        return None if obs == want else "a polychord of %d chords is %s, expected the last chord's notes first and the first chord's last: %s" % (len(parts), obs, want)
     if kind[0] == "polyslash":
         _, r1, k1, r2, k2, b = kind
         want = poly_expect(spec_notes_of(r1, k1), [b] + spec_notes_of(r2, k2))
